@@ -94,3 +94,40 @@ func HarnessC20_Missing() {
 	}
 	vfCover("c20-missing-done")
 }
+
+func init() { vfRegister("HarnessC20_Conflicting", HarnessC20_Conflicting) }
+
+// HarnessC20_Conflicting: a request that carries several organisation-id
+// values (a proxy or a client library appended instead of replacing) is never
+// resolved to one of them unless they all agree: up to 4 gRPC metadata values
+// / HTTP header values, each one symbolic byte.
+func HarnessC20_Conflicting() {
+	k := vfChoice("values", vfParam("values", 4)+1)
+	vals := make([]string, k)
+	for i := range vals {
+		vals[i] = vfStr("v", 1)
+	}
+	allEqual := true
+	for i := 1; i < k; i++ {
+		allEqual = vfAnd(allEqual, vals[i] == vals[0])
+	}
+	md := metadata.MD{}
+	if k > 0 {
+		md[lowerOrgIDHeaderName] = vals
+	}
+	id, ctx, err := ExtractFromGRPCRequest(metadata.NewIncomingContext(context.Background(), md))
+	if k == 0 {
+		vfAssert(err == ErrNoOrgID, "C20 a gRPC request without the key is rejected, no default")
+	}
+	if err == nil {
+		vfAssert(k >= 1, "C20 an accepted gRPC request carried an organisation id")
+		vfAssert(allEqual, "C20 a gRPC request carrying conflicting organisation ids is rejected")
+		vfAssert(id == vals[0], "C20 the accepted organisation id is the one supplied")
+		got, err2 := ExtractOrgID(ctx)
+		vfAssert(err2 == nil && got == id, "C20 and lands in the context unchanged")
+	}
+	if k == 1 {
+		vfAssert(err == nil, "C20 a gRPC request with exactly one organisation id is accepted")
+	}
+	vfCover("c20-conflicting-done")
+}
